@@ -271,3 +271,29 @@ CLAIMS["C18"] = dict(
          "given in non-ascending order, because the gradient handed to L-BFGS-B is permuted (the C07 index-order defect; corpus/C18/"
          "worse-than-start-permuted-target.json; repaired in /repo by 050ae69, the C07 index-order fix).",
     technique="Lean 4 index arithmetic (reshape 'F') + optimiser contract as explicit hypothesis + wrapped-minimize correspondence + recomputation oracle")
+CLAIMS["C05"] = dict(
+    category="proof",
+    text="PARTIAL (numpy's generator is assumed). Proved in Lean (Mathlib probability, no extra hypotheses) for any finite number of independent clocks tau_i ~ Exp(r_i), r_i > 0: "
+         "the waiting time to the next event is exponential with the total rate, P(all tau_i > s) = exp(-(sum r) s) (min_of_indep_exp); clock i is strictly first with probability "
+         "r_i / sum r (first_clock); jointly P(i first and tau_i > s) = (r_i/sum r) exp(-(sum r) s), i.e. event and holding time are independent (step_law); if E ~ Exp(1) then "
+         "E/r ~ Exp(rate r), which is what rexp(n, rate) = numpy exponential(scale=1/rate) computes (exp_scale). The step of firstReaction as the code has it (executable model "
+         "Pygom/Stoch.lean: one clock per positive-rate event in event order, np.argmin, time advanced by the winning clock) is proved to pick the FIRST MINIMUM of its draws, to fire the "
+         "positive-rate event owning it and to advance time by exactly that minimum (model_step_is_first_min, chosen_event_can_fire, model_step_time, first_min_iff), and the pair (event chosen by that "
+         "first-minimum rule, time advance) under independent Exp(r_i) draws has exactly the one-step law of the continuous-time Markov chain, ties included "
+         "(model_step_law, model_choice_law). The jump probabilities r_i/sum r sum to one (stepProbs_sum_to_one) and the exact rational SIR final-size law computed from the embedded jump "
+         "chain (finalSizePMF, served to the harness by the driver op `finalsize`) is a probability mass function for every S0, I0, beta >= 0, gamma > 0, N > 0 (finalSizePMF_sums_to_one, finalSizePMF_nonneg). "
+         "Tie of model to code on every run: (a) exact identities, no statistics: after np.random.seed(s), rexp(1, r) == RandomState(s).standard_exponential()*(1.0/r) == "
+         "RandomState(s).exponential(scale=1/r) bit for bit (scalar, vector, consecutive calls); (b) real solve_stochast(exact=True) runs with every numpy draw and evaluator call recorded, each loop "
+         "iteration replayed through the Lean step model from the observed pre-state, and the recorded clocks aligned with the path independently of the evaluator calls (one clock per "
+         "positive-rate event in event order, scale 1/rate_i at the CURRENT state and time, fired event = owner of the first minimum, time advanced by it). The property itself is decided by a "
+         "Lean-independent end-to-end oracle on many real runs: multinomial occupancy at time t of independent individual-level progression chains (1-2 families, 2-4 compartments, skip/back/competing "
+         "edges; reference row of expm(Q t) at 40 digits), SIR final size (exact rational pmf, Python recursion cross-checked exactly against the Lean driver), and the law of rexp; every cell is "
+         "judged by an exact binomial acceptance region, Bonferroni-split so that the total false-alarm probability of a run of the check is < 1e-8.",
+    note="ASSUMED: numpy's standard_exponential yields independent Exp(1) variates and floats are treated as reals (firstMin_cast: the model's choice on rational draws is the choice on the same numbers as reals). "
+         "NOT formalised: the composition of one-step laws into the law of whole paths (strong Markov property / construction of the chain from jump chain and holding times); that composition is exactly what the "
+         "end-to-end statistics test on the real code. The multinomial occupancy reference is computed in Python (mpmath.expm), not in Lean. Rates are autonomous (with time-dependent rates the first-reaction "
+         "method with frozen rates is not exact; outside the property's closed-form families). Trusted: Lean kernel + Mathlib, scipy.stats.binom (regions re-verified with cdf/sf, computed at half the allotted "
+         "alpha to absorb rounding), the harness tracer/generators, driver JSON codec. A sampler with the same law but another algorithm (e.g. the direct method) breaks tie (b) without a statistical violation and "
+         "is then reported as `no-failing-input-found` by the verdict protocol (tried: 0 violations over 288 statistical cases). Detection self-test (quick tier, each a VIOLATION with replay): scale=rate, argmax, "
+         "clock for zero-rate events, rates evaluated once before the loop, rates one step stale, dt from another clock, one clock skipped.",
+    technique="Lean 4 / Mathlib measure theory (independence, product measures, exponential law) + first-minimum link to the executable step model + recorded-draw replay correspondence + exact-binomial end-to-end statistics")
